@@ -499,3 +499,34 @@ def _reindex_terms_after_insert(h, c):
     k = next(i for i, t in enumerate(h.terms) if t.text == c and t.kind == 'c')
     h.rules = [Rule(r.lhs, [(('t', sy[1] + 1) if sy[0] == 't' and sy[1] >= k else sy) for sy in r.rhs], r.prec, r.ftor) for r in h.rules]
     return h
+
+
+def add_bag_list(g, rnd, copying=True):
+    """graft a list nonterminal with a container value built by the list helpers (create<T>, push_back/emplace_back<C,A>) over an
+    existing V-typed nonterminal; returns None if no V-typed nonterminal exists"""
+    vs = [i for i, v in enumerate(g.vtypes) if v == 'V']
+    if not vs: return None
+    g = clone(g)
+    x = rnd.choice(vs)
+    g.nts.append('LB%d' % len(g.nts)); g.vtypes.append('B'); lb = len(g.nts) - 1
+    helper = rnd.choice(['pb', 'eb'] if copying else ['eb'])
+    sep = [('t', rnd.randrange(len(g.terms)))] if rnd.random() < 0.5 else []
+    shape = rnd.choice(['left', 'left', 'right', 'left-nonempty'])
+    if shape == 'left':
+        g.rules.append(Rule(lb, [], None, rnd.choice(['nb', 'nb', 'd'])))
+        g.rules.append(Rule(lb, [('n', lb), ('n', x)] + sep, None, helper + '1,2'))
+    elif shape == 'left-nonempty':
+        g.rules.append(Rule(lb, [('n', x)], None, 'f'))          # a logging functor that returns a fresh empty container and consumes the element
+        g.rules.append(Rule(lb, [('n', lb)] + sep + [('n', x)], None, helper + '1,%d' % (2 + len(sep))))
+    else:
+        g.rules.append(Rule(lb, [], None, 'nb'))
+        g.rules.append(Rule(lb, [('n', x)] + sep + [('n', lb)], None, helper + '%d,1' % (2 + len(sep))))
+    # use the list somewhere: wrap it between two terms in a new alternative of some V/W nonterminal, or as a new root
+    hosts = [i for i, v in enumerate(g.vtypes) if v in ('V', 'W')]
+    h = rnd.choice(hosts)
+    a, b = rnd.randrange(len(g.terms)), rnd.randrange(len(g.terms))
+    g.rules.append(Rule(h, [('t', a), ('n', lb), ('t', b)], None, 'f'))
+    if rnd.random() < 0.3:
+        g.nts.append('RB%d' % len(g.nts)); g.vtypes.append('B'); g.rules.append(Rule(len(g.nts) - 1, [('n', lb)], None, 'd')); g.root = len(g.nts) - 1
+    g.note += '+bag'
+    return g
